@@ -511,3 +511,23 @@ def call_arg(call, pos, name):
     if pos is not None and len(call.args) > pos and not any(isinstance(a, ast.Starred) for a in call.args[:pos + 1]):
         return call.args[pos]
     return None
+
+
+
+def loose_isclose(fn):
+    """(call, relative, absolute) for isclose / allclose calls whose tolerances are wider than rounding error"""
+    out = []
+    for c in ast.walk(fn):
+        if isinstance(c, ast.Call) and (access_path(c.func) or "").split(".")[-1] in ("isclose", "allclose") and len(c.args) >= 2:
+            kw = {k.arg: k.value for k in c.keywords}
+            np_ = (access_path(c.func) or "").startswith(("np.", "numpy."))
+            rel = kw.get("rel_tol", kw.get("rtol"))
+            ab = kw.get("abs_tol", kw.get("atol"))
+            try:
+                relv = fold(rel) if rel is not None else (1e-5 if np_ else 1e-9)
+                absv = fold(ab) if ab is not None else (1e-8 if np_ else 0.0)
+            except ValueError:
+                continue
+            if relv > 1e-14 or absv > 0:
+                out.append((c, relv, absv))
+    return out
